@@ -1374,19 +1374,142 @@ Proof.
              /\ (g_nrem (apply_irs l (add_log s0 e)) = g_nrem s0 -> keeps s0 (apply_irs l (add_log s0 e)))).
   { intros s0 e l. destruct (irs_nrem l (add_log s0 e)) as [A B]. simpl in *. split; [exact A|].
     intros H. specialize (B H). destruct B as (a&b&c0&d). repeat split; auto. }
+  assert (FIN : forall s2 X, g_nrem s <= g_nrem s2 -> (g_nrem s2 = g_nrem s -> keeps s s2) ->
+            cache s2 = cache s -> g_snap_scan s2 = g_snap_scan s ->
+            g_nrem X = g_nrem s2 -> cache X = cache s2 -> g_snap_scan X = g_snap_scan s2 -> keeps s2 X ->
+            g_nrem s <= g_nrem X /\ cache X = cache s /\ g_snap_scan X = g_snap_scan s
+            /\ (g_nrem X = g_nrem s -> keeps s X)).
+  { intros s2 X A B C1 C2 X1 X2 X3 X4. split; [lia|split; [congruence|split; [congruence|]]].
+    intros H. eapply keeps_trans; [apply B; lia|exact X4]. }
+  assert (IRF : forall l s0, cache (apply_irs l s0) = cache s0 /\ g_snap_scan (apply_irs l s0) = g_snap_scan s0).
+  { intros l s0. destruct (apply_irs_fields l s0) as (_&_&C1&_&_&_&_&_&_&C2). auto. }
   unfold call, abort.
   destruct mf as [o'|]; [|destruct bf as [f|]].
-  - match goal with |- context [apply_irs ?l (add_log s ?e)] => destruct (LG s e l) as [A B]; set (s2 := apply_irs l (add_log s e)) in * end.
-    assert (C2 : cache s2 = cache s /\ g_snap_scan s2 = g_snap_scan s) by (unfold s2; irs_rw; rewrite (proj2 (proj2 (proj2 (proj2 (proj2 (proj2 (proj2 (proj2 (proj2 (apply_irs_fields _ _)))))))))); auto).
-    destruct (RL s2) as (R1 & R2 & R3 & R4).
-    destruct (fbeh _); [|destruct (c_guarded c)|]; simpl; rewrite ?R1, ?R2, ?R3; repeat split; try tauto;
-      try (intros H; specialize (B H); destruct B as (a&b&c0&d); destruct R4 as (a'&b'&c'&d');
-           unfold keeps; simpl; repeat split; try congruence; auto; lia).
-  - match goal with |- context [apply_irs ?l (add_log s ?e)] => destruct (LG s e l) as [A B]; set (s2 := apply_irs l (add_log s e)) in * end.
-    assert (C2 : cache s2 = cache s /\ g_snap_scan s2 = g_snap_scan s) by (unfold s2; irs_rw; rewrite (proj2 (proj2 (proj2 (proj2 (proj2 (proj2 (proj2 (proj2 (proj2 (apply_irs_fields _ _)))))))))); auto).
-    destruct (RL s2) as (R1 & R2 & R3 & R4).
-    destruct (fbeh _); [|destruct (c_guarded c)|]; simpl; rewrite ?R1, ?R2, ?R3; repeat split; try tauto;
-      try (intros H; specialize (B H); destruct B as (a&b&c0&d); destruct R4 as (a'&b'&c'&d');
-           unfold keeps; simpl; repeat split; try congruence; auto; lia).
-  - simpl. repeat split; auto.
+  - match goal with |- context [apply_irs ?l (add_log s ?e)] => destruct (LG s e l) as [A B]; destruct (IRF l (add_log s e)) as [C1 C2]; set (s2 := apply_irs l (add_log s e)) in * end.
+    simpl in C1, C2. destruct (RL s2) as (R1 & R2 & R3 & R4).
+    destruct (fbeh _); [|destruct (c_guarded c)|]; apply (FIN s2); auto; simpl; auto using keeps_refl; try (unfold keeps; simpl; repeat split; auto; fail).
+  - match goal with |- context [apply_irs ?l (add_log s ?e)] => destruct (LG s e l) as [A B]; destruct (IRF l (add_log s e)) as [C1 C2]; set (s2 := apply_irs l (add_log s e)) in * end.
+    simpl in C1, C2. destruct (RL s2) as (R1 & R2 & R3 & R4).
+    destruct (fbeh _); [|destruct (c_guarded c)|]; apply (FIN s2); auto; simpl; auto using keeps_refl; try (unfold keeps; simpl; repeat split; auto; fail).
+  - simpl. split; [lia|split; [reflexivity|split; [reflexivity|intros _; unfold keeps; simpl; repeat split; auto]]].
 Qed.
+
+Lemma call_log c w t nm mf bf cur todo k s :
+  exists evs, log (call c w t nm mf bf cur todo k s) = evs ++ log s
+    /\ forall e, In e evs -> e = call_event t nm mf bf cur \/ (exists b, e = EvWarn b nm) \/ e = EvRet t false.
+Proof.
+  unfold call, abort, call_event.
+  destruct mf as [o'|]; [|destruct bf as [f|]].
+  - destruct (fbeh _); [|destruct (c_guarded c)|]; simpl; rel_rw; irs_rw; simpl.
+    + exists [EvCallM o' nm bf]. split; [reflexivity|]. intros e [H|[]]; auto.
+    + exists [EvWarn true nm; EvCallM o' nm bf]. split; [reflexivity|]. intros e [H|[H|[]]]; eauto.
+    + exists [EvRet t false; EvCallM o' nm bf]. split; [reflexivity|]. intros e [H|[H|[]]]; eauto.
+    + exists [EvRet t false; EvCallM o' nm bf]. split; [reflexivity|]. intros e [H|[H|[]]]; eauto.
+  - destruct (fbeh _); [|destruct (c_guarded c)|]; simpl; rel_rw; irs_rw; simpl.
+    + exists [EvCallB f nm cur]. split; [reflexivity|]. intros e [H|[]]; auto.
+    + exists [EvWarn false nm; EvCallB f nm cur]. split; [reflexivity|]. intros e [H|[H|[]]]; eauto.
+    + exists [EvRet t false; EvCallB f nm cur]. split; [reflexivity|]. intros e [H|[H|[]]]; eauto.
+    + exists [EvRet t false; EvCallB f nm cur]. split; [reflexivity|]. intros e [H|[H|[]]]; eauto.
+  - exists []. split; [reflexivity|]. intros e [].
+Qed.
+
+Definition is_quiet_ev (e : event) : bool :=
+  match e with EvAssert _ | EvImm _ _ _ => true | _ => false end.
+
+Lemma env_shape w e s :
+  let s' := apply_env w e s in
+  (exists evs, log s' = evs ++ log s /\ forall x, In x evs -> is_quiet_ev x = true)
+  /\ thr s' = thr s /\ cache s' = cache s /\ g_snap_scan s' = g_snap_scan s
+  /\ g_nrem s <= g_nrem s' /\ (g_nrem s' = g_nrem s -> keeps s s').
+Proof.
+  destruct e as [i|n]; simpl.
+  - destruct (apply_ir_fields i s) as (_&_&C&_&T&L&_&_&_&SS). destruct (ir_nrem i s) as [A B].
+    split; [exists []; split; [exact L|intros x []]|]. auto.
+  - destruct (m_get (pend s) n).
+    + simpl. split; [exists [EvAssert n]; split; [reflexivity|intros x [H|[]]; subst; reflexivity]|].
+      repeat split; auto.
+    + destruct (m_get (mods s) n) as [o'|].
+      * destruct (has_own w s o').
+        -- simpl. split; [exists []; split; [reflexivity|intros x []]|]. repeat split; auto.
+        -- match goal with |- context [apply_irs ?l ?s0] =>
+             destruct (apply_irs_fields l s0) as (_&_&C&_&T&L&_&_&_&SS); destruct (irs_nrem l s0) as [A B] end.
+           simpl in *. split; [eexists [_]; split; [exact L|intros x [H|[]]; subst; reflexivity]|].
+           split; [exact T|split; [exact C|split; [exact SS|split; [exact A|]]]].
+           intros H. destruct (B H) as (a&b&c0&d). repeat split; auto.
+      * simpl. split; [exists []; split; [reflexivity|intros x []]|]. repeat split; auto.
+Qed.
+
+(* ------------------------------------------------------------------ timeliness *)
+Section Timely.
+Variable c : cfg.
+Variable w : world.
+Hypothesis Hpop : c_pop c = true.
+Hypothesis Hlock : c_locked c = true.
+Hypothesis Hbase : 1 <= w_base w.
+Variables t n o : nat.
+Hypothesis HG : glue_of w o <> None.
+Variables m1 nrem0 : nat.
+Variable log1 : list event.
+
+Definition QB (s : st) : Prop :=
+  g_since_cache s = false /\ g_since_snap s = false /\ m_get (mods s) n = Some o /\ m1 <= length (mods s)
+  /\ (exists new, log s = new ++ log1 /\ (~ calledM s o -> ~ In (EvRet t true) new))
+  /\ (~ calledM s o ->
+        cache s < w_base w + m1
+        /\ (In (n, o) (g_snap_scan s) \/ length (g_snap_scan s) < m1)
+        /\ (forall l, thr s t = PRead l -> w_base w + m1 <= l)
+        /\ (forall x, scan_of (thr s t) = Some x -> In (n, o) (g_snap_scan s))).
+
+Definition Q (s : st) : Prop := nrem0 <= g_nrem s /\ (g_nrem s = nrem0 -> QB s).
+
+Lemma calledM_ext s s' evs : log s' = evs ++ log s -> calledM s o -> calledM s' o.
+Proof. intros L (a & d & H). exists a, d. rewrite L. apply in_or_app. right. exact H. Qed.
+
+(* steps that touch neither the cache nor the snapshot of the scan in progress *)
+Lemma QB_frame s s' evs :
+  QB s -> keeps s s' -> log s' = evs ++ log s ->
+  cache s' = cache s -> g_snap_scan s' = g_snap_scan s ->
+  (~ calledM s o -> ~ In (EvRet t true) evs) ->
+  (~ calledM s o -> forall l, thr s' t = PRead l -> thr s t = PRead l \/ w_base w + m1 <= l) ->
+  (~ calledM s o -> forall x, scan_of (thr s' t) = Some x -> exists y, scan_of (thr s t) = Some y) ->
+  QB s'.
+Proof.
+  intros (F1 & F2 & MG & LE & (new & LN & NR) & B3) (K1 & K2 & K3 & K4) L CA SS E1 E2 E3.
+  assert (NC : ~ calledM s' o -> ~ calledM s o).
+  { intros H X. apply H. eapply calledM_ext; eassumption. }
+  unfold QB. rewrite K1, K2, CA, SS. repeat split; auto; try lia.
+  - exists (evs ++ new). split; [rewrite L, LN; apply app_assoc|].
+    intros H X. apply in_app_or in X. destruct X as [X|X]; [exact (E1 (NC H) X)|exact (NR (NC H) X)].
+  - apply (B3 (NC H)).
+  - apply (B3 (NC H)).
+  - intros l X. destruct (E2 (NC H) l X) as [Y|Y]; [apply (B3 (NC H)); exact Y|exact Y].
+  - intros x X. destruct (E3 (NC H) x X) as [y Y]. destruct (B3 (NC H)) as (_ & _ & _ & Z). eapply Z. exact Y.
+Qed.
+
+(* a thread about to write the cache has served every module of its snapshot *)
+Lemma write_called s t0 k :
+  GI w s -> IM o s -> g_since_snap s = false -> thr s t0 = PScan [] k ->
+  In (n, o) (g_snap_scan s) -> calledM s o.
+Proof.
+  intros G (_ & _ & _ & _ & IE) SS E I.
+  assert (SC : scan_of (thr s t0) = Some ([], k)) by (rewrite E; reflexivity).
+  destruct (@gi_K3 w s G SS t0 [] k SC n o I) as [[]|[X|X]]; [contradiction|].
+  destruct (IE X) as [Y|[t' Y]].
+  - apply nM_calledM. lia.
+  - exfalso. unfold inflightM in Y. destruct (thr s t') eqn:E'; try discriminate.
+    assert (L1 : lock s = Some t') by (apply (@gi_L1 w s G t'); rewrite E'; reflexivity).
+    assert (L2 : lock s = Some t0) by (apply (@gi_L1 w s G t0); rewrite E; reflexivity).
+    assert (t' = t0) by congruence. subst. rewrite E in E'. discriminate.
+Qed.
+
+Lemma Q_env e s : Q s -> Q (apply_env w e s).
+Proof.
+  intros [N0 QQ]. destruct (env_shape w e s) as ((evs & L & QE) & T & CA & SS & A & B).
+  split; [lia|]. intros H. assert (H0 : g_nrem s = nrem0) by lia.
+  eapply QB_frame with (s := s) (evs := evs); auto.
+  - apply B. lia.
+  - intros _ X. apply QE in X. discriminate.
+  - intros _ l X. left. rewrite T in X. exact X.
+  - intros _ x X. rewrite T in X. eauto.
+Qed.
+End Timely.
